@@ -35,18 +35,19 @@ theorem C05_sound_scalar (std : Std) (cfg : Option MetaCfg) (t : Ty) (ht : isSca
 
 /-- **C05 (soundness, composite types).** For every type built from the scalar kinds, `Any`, `Optional`, list / set /
 frozenset / deque, variadic tuples, fixed-length tuples none of whose members accepts `None` (then the element count is
-exact), dict-like types, TypedDict classes, `Union`s (of any members of the fragment, tagged dataclasses and `None`) and
-dataclasses, nested to any depth (`Frag`), for **every** JSON input and any travelling config: whatever the default engine
+exact), dict-like types, TypedDict and NamedTuple classes (pairwise distinct field names), `Union`s (of any members of the
+fragment, tagged dataclasses and `None`) and dataclasses, nested to any depth (`Frag`), for **every** JSON input and any travelling config: whatever the default engine
 returns is an instance of the annotation (`Sound`) — containers of the exact kind whose elements / keys / values are
 sound; tuples of exactly the declared length, position by position; TypedDict results holding only declared keys with
-sound values and every required key; a Union result sound for one of the declared members (or `None` when `None` is
+sound values and every required key; NamedTuple results of exactly the declared length, each element a sound loaded value
+or the field's declared default (from a dict of keyword values or from a sequence); a Union result sound for one of the declared members (or `None` when `None` is
 declared); dataclass instances with exactly the declared fields in order, each holding a sound loaded value, the captured
 catch-all dictionary, or the field's declared default / `__post_init__` value. By induction over the type; the
 dataclass case goes through the key loop (`loadKeysWith_sound`), junk inputs (`loadJunkKeys_sound`) and the constructor
 step (`buildFields_origin`); the Union case shows that whatever either phase of the Union parser returns was produced by
 the loader of one declared member (`loadUnionTry_origin`, `loadTagged_origin`).
-Outside the fragment: fixed-length tuples with `None`-accepting members (recorded finding `short-tuple-with-optional`),
-NamedTuple, the `None` annotation outside a Union (recorded finding). -/
+Outside the fragment: fixed-length tuples with `None`-accepting members (recorded finding `short-tuple-with-optional`), the
+`None` annotation outside a Union (recorded finding). -/
 theorem C05_sound (std : Std) (cfg : Option MetaCfg) (t : Ty) (hf : Frag t) (o : JVal) (y : PyVal)
     (h : loadD std cfg t o = .ok y) : Sound conformsScalar t y :=
   sound std cfg t hf o y h
@@ -65,13 +66,15 @@ theorem C05_fromdict_sound (std : Std) (ci : ClassInfo) (ftys : List (S × Ty)) 
 /-- **C05 (soundness, v1 engine).** The same statement for the v1 loader: for every type built from the scalar kinds (incl.
 `bytes` / `bytearray`; `Literal` members by `==` *and* type — since repair af98f53), `Any`, `Optional`, list / set /
 frozenset / deque, variadic and fixed-length tuples (always exactly the declared length: the generated code indexes
-`v1[0] … v1[n-1]`), dict-like types, TypedDict classes, `Union`s (tag dispatch, the exact-type fast path, try-parse of the
+`v1[0] … v1[n-1]`), dict-like types, TypedDict classes, NamedTuple classes (defaulted fields last, as Python demands:
+`trailingDefaults`), `Union`s (tag dispatch, the exact-type fast path, try-parse of the
 other members, coercion pass) and dataclasses, nested to any depth (`FragV1`), for **every** JSON input and any travelling
 config: whatever `loadV1` returns is an instance of the annotation (`Sound conformsScalarV1`). The Union case shows that
 each of the four ways the generated Union helper can return produces the result of one declared member's loader, or the
 input itself when it already has exactly a simple member's type (`v1Tagged_origin`, `v1UnionExact_origin`,
 `v1UnionCoerce_origin`, `exactKind_conf`); the dataclass case goes through the generated field loop (`v1Fields_sound`),
-the catch-all argument and `cls(**kw)` (`finishKw_sound`). Outside the fragment: NamedTuple. -/
+the catch-all argument and `cls(**kw)` (`finishKw_sound`); the NamedTuple case through the positional field expressions
+(`v1NtSeq_spec`: taken from the sequence up to its length, then only defaults remain). -/
 theorem C05_v1_sound (std : Std) (cfg : Option MetaCfg) (t : Ty) (hf : FragV1 t) (o : JVal) (y : PyVal)
     (h : loadV1 std cfg t o = .ok y) : Sound conformsScalarV1 t y :=
   soundV1 std cfg t hf o y h
@@ -138,12 +141,15 @@ theorem C05_sound_example :
     subst hq
     exact Frag.scalar _ rfl
 
-/-- non-vacuity of the Union / tuple / TypedDict cases: `Union[int, list[str], Tagged, None]`, `tuple[int, str]` and a
-TypedDict with a required and an optional key are in the fragment -/
+/-- non-vacuity of the Union / tuple / TypedDict / NamedTuple cases: `Union[int, list[str], Tagged, None]`, `tuple[int, str]`, a
+TypedDict with a required and an optional key and the NamedTuple `P(x: int, y: Optional[str] = None)` (both engines) are in the
+fragments -/
 theorem C05_sound_example_union :
     Frag (.union [.int, .seq .list .str, .cls { name := "T".toList, cmeta := some { tag := some "t".toList }, fields := [{ name := "a".toList }] } [("a".toList, .tuple [.int, .str])], .none]) ∧
-    Frag (.typeddict "TD".toList [("k".toList, .int, true), ("opt".toList, .optional .str, false)]) := by
-  constructor
+    Frag (.typeddict "TD".toList [("k".toList, .int, true), ("opt".toList, .optional .str, false)]) ∧
+    Frag (.ntuple "P".toList [("x".toList, .int, none), ("y".toList, .optional .str, some (.lit .none))]) ∧
+    FragV1 (.ntuple "P".toList [("x".toList, .int, none), ("y".toList, .optional .str, some (.lit .none))]) := by
+  refine ⟨?_, ?_, ?_, ?_⟩
   · refine Frag.union _ ?_
     intro t ht hn
     simp only [List.mem_cons, List.not_mem_nil, or_false] at ht
@@ -168,6 +174,18 @@ theorem C05_sound_example_union :
     rcases hf with rfl | rfl
     · exact Frag.scalar _ rfl
     · exact Frag.optional _ (Frag.scalar _ rfl)
+  · refine Frag.ntuple _ _ (by decide) ?_
+    intro f hf
+    simp only [List.mem_cons, List.not_mem_nil, or_false] at hf
+    rcases hf with rfl | rfl
+    · exact Frag.scalar _ rfl
+    · exact Frag.optional _ (Frag.scalar _ rfl)
+  · refine FragV1.ntuple _ _ (by rfl) ?_
+    intro f hf
+    simp only [List.mem_cons, List.not_mem_nil, or_false] at hf
+    rcases hf with rfl | rfl
+    · exact FragV1.scalar _ rfl
+    · exact FragV1.optional _ (FragV1.scalar _ rfl)
 
 /-- After the repair (fix: 461d34c) a Union without `None` rejects `null` instead of passing it through. -/
 theorem C05_union_rejects_none (std : Std) (cfg : Option MetaCfg) :
